@@ -23,7 +23,9 @@ ASSUMPTIONS = ['libm pow is accurate to 1e-9 relative (used only when the result
 RULE = RULE + '; plus unknown pairs (fixed, generated from pieces of real keys, and as the first call after import) and, in the single-process pass, interleaved calls that raise'
 
 UNKNOWN = [('M', 'XYZ'), ('X', '100'), ('F', '110H'), ('M', 'MAR'), ('F', '4x100'), ('Q', 'HJ'),
-           ('M', '150'), ('F', 'SP4K')]
+           ('M', '150'), ('F', 'SP4K'),
+           # not even strings (an empty cell, a number keyed in): still "no score", not an error
+           (None, '100'), ('M', None), ('F', 150), (5, '100'), (None, None), ('m', 12.5)]
 
 
 def mark_range(row):
